@@ -13,6 +13,7 @@
 -/
 import Stfs.Props.C05
 import Stfs.Spec.RefFs
+import Stfs.Gen.Fingerprints
 namespace Stfs.C02
 open Stfs
 
@@ -68,5 +69,15 @@ theorem F09_witness :
     (match (s.step {} (env1 2) (.openFile 1 (n!"/new") (O_RDWR + O_CREATE + O_EXCL) 420)).2 with
      | .error .notExist => true | _ => false) = true := by
   decide
+
+-- MIRRORS-BEGIN (maintained by bin/update-mirrors)
+/-- The parts of the model this file's theorems are about were written by hand against these
+    versions of the functions they mirror (fingerprint of each function's comment-free source,
+    regenerated on every run).  When one of them changes, this obligation fails: the change has
+    to be confirmed harmless by the correspondence, or shows up as its failing input. -/
+theorem model_mirrors_source :
+    [(n!"fs.STFS.Mkdir"), (n!"fs.STFS.MkdirAll"), (n!"fs.STFS.Remove"), (n!"fs.STFS.RemoveAll"), (n!"fs.STFS.Rename"), (n!"fs.STFS.OpenFile"), (n!"fs.STFS.Create"), (n!"fs.STFS.Chmod"), (n!"fs.STFS.Chown"), (n!"fs.STFS.Chtimes"), (n!"fs.STFS.SymlinkIfPossible"), (n!"fs.STFS.mknodeWithoutLocking"), (n!"fs.STFS.removeWithoutLocking"), (n!"fs.STFS.updateMetadata"), (n!"inventory.Stat")].map Gen.fingerprintOf =
+    [some 823642119686928358, some 1568040599885539347, some 173944456288931333, some 637712002952537686, some 615787276878741348, some 783957390101727887, some 1326896719285586932, some 2114429229993821925, some 262292304263637420, some 230397048809253692, some 2108145255034646484, some 2302725456323025275, some 2041027050399353272, some 1465021600573265517, some 804149311388915219] := by decide
+-- MIRRORS-END
 
 end Stfs.C02
